@@ -312,6 +312,8 @@ func c05(c *Ctx) {
 		r.Check(okRec, "R5.symmetry", core.FuncName(m.put)+" persisted-record", p.Pos(adds[0].Pos()), "the size record written by Put holds the counter value after the add", "the size record written by Put is not the updated counter")
 	}
 	errorsExamined(c, "R6.errors-examined", "content store", []string{"storage/pebble"}, "(*storage/pebble.ContentStorage).", "storage/pebble.NewStorage")
+	pruneScansWholeKeyspace(c, m, "R4.farthest-first")
+	keyFnLeavesArgumentsAlone(c, m, "R4.farthest-first")
 }
 
 func isSizeLoad(m *storeModel, v ssa.Value) bool {
